@@ -425,4 +425,5 @@ pub const PROP: Prop = Prop {
         "harvested groups mentioning WeakRef/FinalizationRegistry, real time, locale or unbounded loops are excluded at authoring time; a loop limit of 200000 is set in both configurations",
     ],
     nondeterminism_is_violation: false,
+    hang_is_violation: true,
 };
